@@ -9,6 +9,7 @@ import Driver.Promise
 import Driver.Server
 import Driver.Rpc
 import Driver.Gen15
+import Driver.Pogs19
 /-! `modeld`: one operation per line on stdin, one canonical result per line on stdout. -/
 open Driver
 
@@ -24,6 +25,7 @@ def dispatch (line : String) : String :=
   | "server" :: rest => Driver.Server.run rest
   | "rpc" :: rest => Driver.Rpc.run rest
   | "gen15" :: rest => Driver.Gen15.run rest
+  | "pogs19" :: rest => Driver.Pogs19.run rest
   | "build" :: rest => Driver.Read.runBuild rest
   | ["case", _] => "case"
   | _ => "bad-op"
